@@ -41,6 +41,8 @@ pub enum Step {
     },
     /// base-order allocations until out of memory (judged call by call, state compared at the end)
     Exhaust { class: u8, slot: Option<usize> },
+    /// free every held block of one tree (mode 0: without a slot, 1: through the slot, 2: mixed)
+    FreeTree { tree: usize, mode: u8, class: u8, slot: Option<usize> },
     /// C07: warm handoff - build a second allocator (assume-initialized) over byte copies of the
     /// three metadata buffers; from now on both are driven in lock-step
     Warm,
@@ -85,6 +87,12 @@ impl Step {
                 .set("op", "exhaust")
                 .set("class", *class)
                 .set("slot", *slot),
+            Step::FreeTree { tree, mode, class, slot } => J::obj()
+                .set("op", "free_tree")
+                .set("tree", *tree)
+                .set("mode", *mode)
+                .set("class", *class)
+                .set("slot", *slot),
             Step::Warm => J::obj().set("op", "warm_handoff"),
         }
     }
@@ -112,6 +120,12 @@ impl Step {
                 slot: opt_u(j.get("slot")),
             },
             "exhaust" => Step::Exhaust {
+                class: j.gu("class") as u8,
+                slot: opt_u(j.get("slot")),
+            },
+            "free_tree" => Step::FreeTree {
+                tree: j.gu("tree") as usize,
+                mode: j.gu("mode") as u8,
                 class: j.gu("class") as u8,
                 slot: opt_u(j.get("slot")),
             },
@@ -197,7 +211,7 @@ impl Profile {
             w_drain: 0,
             w_change: 0,
             single: true,
-            w_exhaust: 6,
+            w_exhaust: 10,
             min_steps: 40,
             max_steps: 200,
             ..Self::q1()
@@ -560,6 +574,12 @@ impl Run<'_> {
             7 => Step::Call(self.gen_change(rng)),
             8 => Step::Call(self.gen_badarg(rng)),
             9 => Step::ProbeBase { class, slot },
+            11 if rng.chance(1, 3) && !self.ledger.held.is_empty() => Step::FreeTree {
+                tree: rng.below(self.cfg.trees().max(1)),
+                mode: rng.below(3) as u8,
+                class,
+                slot,
+            },
             11 => Step::Exhaust { class, slot },
             _ => {
                 let want_free = rng.chance(3, 5);
@@ -768,7 +788,7 @@ impl Run<'_> {
                 class: *class,
                 slot: *slot,
             }),
-            Step::Warm => None,
+            Step::Warm | Step::FreeTree { .. } => None,
             Step::ProbeAt {
                 frame,
                 order,
@@ -784,6 +804,9 @@ impl Run<'_> {
     }
 
     fn lower_changed(&mut self) -> bool {
+        if cfg!(miri) {
+            return true;
+        }
         let cur = unsafe { std::slice::from_raw_parts(self.lower_ptr, self.lower_len) };
         if cur != self.lower_shadow.as_slice() {
             self.lower_shadow.copy_from_slice(cur);
@@ -1056,9 +1079,15 @@ impl Run<'_> {
                                 "change-applied-to-reserved-or-nonmatching",
                                 format!("call #{id} {call:?} changed tree {t} from {:?} to {:?}", before[t], after[t]),
                             ),
-                            true,
+                            false,
                         );
-                        return;
+                        // a pure class change does not touch the frame model: the history goes on
+                        // (a later panic is C09's business); anything else cannot be followed
+                        if *op != 0 || after[t].1 != before[t].1 {
+                            self.stop = true;
+                            return;
+                        }
+                        return self.after_call(id, &call, &outcome, valid, changed_model, snap_before, fast_before);
                     }
                     let want_class = class.unwrap_or(before[t].0);
                     if after[t].0 != want_class || after[t].2 {
@@ -1318,6 +1347,33 @@ impl Run<'_> {
 
     fn do_step(&mut self, step: &Step) {
         match step {
+            Step::FreeTree { tree, mode, class, slot } => {
+                let lo = tree * TREE_FRAMES;
+                let blocks: Vec<Block> = self.ledger.held.range(lo..lo + TREE_FRAMES).map(|(_, b)| *b).collect();
+                self.light = true;
+                for (i, b) in blocks.iter().enumerate() {
+                    let s = match mode {
+                        0 => None,
+                        1 => *slot,
+                        _ => if i % 3 == 0 { *slot } else { None },
+                    };
+                    self.do_call(Call::Put { frame: b.frame, order: b.order, class: *class, slot: s }, None);
+                    if self.stop {
+                        break;
+                    }
+                }
+                self.light = false;
+                if !self.stop {
+                    self.lower_changed();
+                    self.stats.full_compares += 1;
+                    if let Ok(Some((f, got, want))) = masked(|| guarded(|| compare_frames(&self.alloc, &self.model))) {
+                        self.report(
+                            Violation::new("C02", "frame-state-diverged", format!("after freeing tree {tree}: frame {f} free={got} in the allocator, free={want} in the model")),
+                            true,
+                        );
+                    }
+                }
+            }
             Step::Exhaust { .. } => {
                 self.stats.exhausts += 1;
                 let Some(c) = self.resolve(step) else { return };
@@ -1389,7 +1445,7 @@ impl Run<'_> {
 impl Run<'_> {
     /// F-warm: byte-copy the three buffers and build a second allocator with `Init::None`
     fn handoff(&mut self) {
-        if self.twin.is_some() {
+        if self.twin.is_some() || cfg!(miri) {
             return;
         }
         let Some(side) = self.side.clone() else { return };
@@ -1503,13 +1559,18 @@ impl SeqRunner<'_> {
             }
             Err(_) => return res,
         };
-        unsafe {
-            world.attach(
-                cfg.frames,
-                std::slice::from_raw_parts(lp, ll),
-                std::slice::from_raw_parts(tp, tl),
-                std::slice::from_raw_parts(cp, cl),
-            );
+        // Under Miri the harness does not look into the buffers behind the allocator's back
+        // (that would itself violate the aliasing model): no shadow copies, no write log.
+        let (lp, ll) = if cfg!(miri) { (lp, 0) } else { (lp, ll) };
+        if !cfg!(miri) {
+            unsafe {
+                world.attach(
+                    cfg.frames,
+                    std::slice::from_raw_parts(lp, ll),
+                    std::slice::from_raw_parts(tp, tl),
+                    std::slice::from_raw_parts(cp, cl),
+                );
+            }
         }
         if crash_on {
             let mut c = Crash::new(cfg.clone(), self.side.clone().unwrap());
